@@ -85,9 +85,10 @@ Candidates(W, S, call, env) ==
 WellTyped(W, e) == \A x \in DOMAIN e : Len(e[x]) = TypeOfPath(W, x).w
 Sol(W, S, call, env) ==
   {e \in Candidates(W, S, call, env) : WellTyped(W, e) /\ HardAll(W, S, call, e, S.sz) = "T"}
-\* TRUE iff some candidate is not definitely rejected (i.e. T or U)
-MaybeSat(W, S, call, env) ==
-  \E e \in Candidates(W, S, call, env) : WellTyped(W, e) /\ HardAll(W, S, call, e, S.sz) # "F"
+\* TRUE iff some candidate definitely satisfies everything (candidates touching an open zone do
+\* not count: the library has no obligation there, so a failure is accepted)
+DefSat(W, S, call, env) ==
+  \E e \in Candidates(W, S, call, env) : WellTyped(W, e) /\ HardAll(W, S, call, e, S.sz) = "T"
 TotalBits(W, S, call) ==
   LET used == UsedRand(W, S, SeqSet(call.roots)) IN
   IF used = {} THEN 0 ELSE
@@ -160,14 +161,13 @@ CModeClauses(W, S, ev) ==
     values_unchanged |-> ev.post = Proj(S), idle_after |-> Idle(ev.stk) ]
 CModeEffect(W, S, ev) == [S EXCEPT !.cmode[CKey(ev.o, ev.b)] = ev.en]
 
-\* rangelist edits: ev.items is the new content as the user sees it afterwards
+\* rangelist edits: the content is not readable through the API, so the event carries what was added
+\* (as <<lo, hi>> pairs) and the specification tracks the content
+RlNew(S, ev) == IF ev.op = "rl_clear" THEN << >> ELSE S.rl[ev.p] \o ev.added
 RlClauses(W, S, ev) ==
   [ known_rl |-> ev.p \in DOMAIN S.rl, no_exception |-> ev.exc = "none",
-    content  |-> CASE ev.op = "rl_clear"  -> ev.items = << >>
-                   [] ev.op = "rl_extend" -> ev.items = S.rl[ev.p] \o ev.added
-                   [] ev.op = "rl_append" -> ev.items = S.rl[ev.p] \o ev.added,
     values_unchanged |-> ev.post = Proj(S), idle_after |-> Idle(ev.stk) ]
-RlEffect(W, S, ev) == [S EXCEPT !.rl[ev.p] = ev.items]
+RlEffect(W, S, ev) == [S EXCEPT !.rl[ev.p] = RlNew(S, ev)]
 
 \* list edits on scalar lists (C04): the facade afterwards is the previous exposed sequence edited
 ListSeq(S, l) == [i \in 1..S.sz[l] |-> S.vals[ElemPath(l, i - 1)]]
@@ -217,7 +217,7 @@ CallClauses(W, S, ev) ==
     in_type            |-> \A x \in DOMAIN ev.post.v : x \in used => InType(W, x, ev.post.v[x]),  \* C01
     ok_hard_hold       |-> ok => HardAll(W, Sm, call, ev.post.v, ev.post.sz) # "F",               \* C01
     fail_iff_unsat     |-> (ev.exc = "SolveFailure" /\ Small(W, Sm, call))
-                               => ~MaybeSat(W, Sm, call, mid.v),                                   \* C02
+                               => ~DefSat(W, Sm, call, mid.v),                                   \* C02
     facade_consistent  |-> ok => \A l \in DOMAIN ev.post.sz :
                                {ElemPath(l, i - 1) : i \in 1..ev.post.sz[l]} \subseteq DOMAIN ev.post.v
                                \/ W.lists[l].isobj,                                                \* C04
@@ -256,6 +256,37 @@ ProbeClauses(W, S, ev) ==
                         h = "U" \/ (ev.rows[i][k + 1] = 1) = (h = "T"),
     state_restored |-> ev.post = Proj(S),
     idle_after    |-> Idle(ev.stk) ]
+
+(* ---------------- diagnostics attached to a FAIL verdict (explanatory only) ------------- *)
+ProbeDiag(W, S, ev) ==
+  LET call  == ev.call
+      roots == SeqSet(call.roots)
+      used  == UsedRand(W, S, roots)
+      k     == Len(ev.paths)
+      envOf(r) == [x \in DOMAIN S.vals |->
+                     IF \E j \in 1..k : ev.paths[j] = x
+                     THEN NatBits(r[CHOOSE j \in 1..k : ev.paths[j] = x], TypeOfPath(W, x).w)
+                     ELSE S.vals[x]]
+      pinsOK(r) == \A j \in 1..k : ev.paths[j] \in used
+                       \/ NatBits(r[j], TypeOfPath(W, ev.paths[j]).w) = S.vals[ev.paths[j]]
+      expect(r) == IF ~pinsOK(r) THEN "F" ELSE HardAll(W, S, call, envOf(r), S.sz)
+      bad == {i \in 1..Len(ev.rows) : LET h == expect(ev.rows[i]) IN
+                  ~(h = "U" \/ (ev.rows[i][k + 1] = 1) = (h = "T"))}
+      few == {i \in bad : Cardinality({j \in bad : j < i}) < 4}
+  IN [n_bad |-> Cardinality(bad), rows |-> {<<ev.rows[i], expect(ev.rows[i])>> : i \in few}, used |-> used]
+CallDiag(W, S, ev) ==
+  LET roots == SeqSet(ev.call.roots)
+      mid   == AfterPre(S, ev)
+      Sm    == [S EXCEPT !.vals = mid.v, !.sz = mid.sz]
+      used  == UsedRand(W, Sm, roots)
+  IN [used |-> used,
+      changed_nonrand |-> {x \in DOMAIN mid.v : x \notin used /\ x \in DOMAIN ev.post.v /\ ev.post.v[x] # mid.v[x]},
+      hard |-> IF ev.exc = "none" /\ DOMAIN ev.post.v = DOMAIN mid.v THEN HardAll(W, Sm, ev.call, ev.post.v, ev.post.sz) ELSE "-",
+      pre_differs |-> {x \in DOMAIN S.vals : x \notin DOMAIN ev.pre.v \/ ev.pre.v[x] # S.vals[x]}]
+Diag(W, S, ev) ==
+  CASE ev.op = "probe" -> ProbeDiag(W, S, ev)
+    [] ev.op = "call"  -> CallDiag(W, S, ev)
+    [] OTHER -> [none |-> TRUE]
 
 (* ------------------------------ dispatch ------------------------------- *)
 Clauses(W, S, ev) ==
